@@ -7,14 +7,15 @@
    is translated from src/internal.rs and run by the interpreter like the rest; the ONLY thing supplied from outside is the
    meaning of the wasm32 SIMD instructions (RustLite.vprim / sprim: the intrinsic models of Wasm.v).  Where the path goes
    through unordered_load3 the slices are slices of bytes (each element below 256: its u64 sums then cannot overflow, whatever
-   the build profile checks).  Not in the fragment: checkpoint / from_checkpoint (they go through
-   PortableHash; tied by SourceKernelWasm.v and the correspondence runs), Default, and the trait impls that forward.
+   the build profile checks).  checkpoint (written in `impl HighwayHash for WasmHash`) and from_checkpoint go through
+   PortableHash: the PortableHash functions they call are the translated ones of the same table (SourceTie.all_fns).
+   Not in the fragment: Default, and the trait impls that forward.
    (Part of C04: the model C04 is proved about is, for these functions, what the source says today.) *)
 From Coq Require Import NArith List String Bool.
 From HW Require Import Word Packet X86 Portable Wasm.
 From HW.Facts Require Import RustLite.
 From HWGen Require Import SrcPacket SrcWasmFull.
-From HW.Refine Require Import SourceTie SourceTieWasmFull SourceTieWasmBytes.
+From HW.Refine Require Import SourceTie SourceTieCkpt SourceTieWasmFull SourceTieWasmBytes SourceTieWasmCkpt.
 Import ListNotations.
 Local Open Scope N_scope.
 
@@ -133,6 +134,18 @@ Theorem SRCW_append : forall p fuel c b data, wfp b ->
          (fun s' => (wgenv_of (w_core s') (w_buffer s'), [Some (VA data)], None)).
 Proof. exact w_append_src. Qed.
 
+(* checkpoint: V2x64U::as_arr + copy_from_slice into a PortableHash value, then the translated PortableHash::checkpoint *)
+Theorem SRCW_checkpoint : forall p fuel c b, wfp b ->
+  ret_of' (call p (S (S (S fuel))) "WasmHash::checkpoint" (wgenv_of c b) [])
+  = lift_ret' (w_checkpoint p {| w_core := c; w_buffer := b |}) VA.
+Proof. exact w_checkpoint_src. Qed.
+
+(* from_checkpoint: the translated PortableHash::from_checkpoint on ANY 164 bytes, then V2x64U::new on its lanes *)
+Theorem SRCW_from_checkpoint : forall p fuel c b data, List.length data = 164%nat ->
+  call p (S (S (S (S (S (S fuel)))))) "WasmHash::from_checkpoint" (wgenv_of c b) [VA data]
+  = lift (w_from_checkpoint p data) (fun s' => (wgenv_of (w_core s') (w_buffer s'), [Some (VA data)], None)).
+Proof. exact w_from_checkpoint_src. Qed.
+
 (* non-vacuity: the interpreter runs the translated wasm.rs — key schedule and one update on concrete values *)
 Example SRCW_runs :
   exists g, call prof_dev 9 "WasmHash::new" (wgenv_of (w_core (w_new (0,0,0,0))) packet_default) [VA [1;2;3;4]] = Ok (g, [Some (VA [1;2;3;4])], None)
@@ -148,3 +161,5 @@ Print Assumptions SRCW_update_remainder.
 Print Assumptions SRCW_finalize.
 Print Assumptions SRCW_append.
 Print Assumptions SRCW_packet.
+Print Assumptions SRCW_checkpoint.
+Print Assumptions SRCW_from_checkpoint.
